@@ -21,20 +21,12 @@ const (
 	// sigor.Compose around sigor / cartesian compositions) the dereference happens inside such a goroutine and
 	// cannot be recovered: the verifier's PROCESS dies. Those inputs are therefore not executed at all (crashRisk).
 	knownNilComponent = "C08-nil-component-panic"
-	// The CBOR decoders of znstar.PaillierGroupElement / RSAGroupElement (ciphertexts, nonces, ring-Pedersen
-	// commitments inside the Paillier / CGGMP21 proofs) use the fields of their DTO (n, v, arithmetic) without a
-	// nil check: a null or missing field panics INSIDE UnmarshalCBOR (errs.Must "value must not be nil" in
-	// NatPlus.Square, or a nil dereference), before any verification.
-	knownElementDecode = "C08-znstar-element-null-field-decode-panic"
 )
 
-var knownIDs = []string{knownNilComponent, knownElementDecode}
+var knownIDs = []string{knownNilComponent}
 
 func matchKnown(in inst, cn compiler.Name, m mutation, violation, panicMsg string) string {
 	switch {
-	case violation == "panic" && strings.HasPrefix(panicMsg, "typed decoding: ") && (m.op == "null" || m.op == "map-drop") &&
-		(strings.Contains(panicMsg, "value must not be nil") || strings.Contains(panicMsg, "nil pointer dereference")):
-		return knownElementDecode
 	case violation == "panic" && (strings.Contains(panicMsg, "nil pointer dereference") || strings.Contains(panicMsg, "called using nil")) &&
 		(m.op == "null" || m.op == "map-drop"):
 		return knownNilComponent
@@ -117,7 +109,10 @@ var enumOps = []string{"null", "map-drop", "key-flip", "arr-trunc", "arr-extend"
 
 // Fixed findings asserted here without exclusion (regressions fail): a38e402 (Okamoto response with fewer / more
 // components than generators: arr-trunc / arr-extend at .z.components) and efa674c (sigor cartesian OR accepted a
-// response whose E0 / E1 carried surplus trailing bytes: bstr-extend-back at .Z.E0 / .Z.E1 of orc(..) shapes).
+// response whose E0 / E1 carried surplus trailing bytes: bstr-extend-back at .Z.E0 / .Z.E1 of orc(..) shapes) and
+// e5b460b (the CBOR decoders of znstar.PaillierGroupElement / RSAGroupElement panicked on a null or missing DTO field:
+// null / map-drop inside the tag 5013 / 5015 / 5017 elements of the nthroot, prm, cggmp21 proofs; a panic in the
+// typed decoding is a violation like a panic in Verify).
 //
 // TestTamperEveryClass: on one small proof per (protocol / composition shape, compiler), EVERY
 // class of site (path with array indices erased) is hit by EVERY deterministic operator
@@ -243,11 +238,8 @@ func TestTamperEveryClass(t *testing.T) {
 		if len(what) > 1500 {
 			what = what[:1500] + " ..."
 		}
-		note := "make the typed decoding of the proof panic (before any verification)"
-		if id == knownNilComponent {
-			note = "make Verify panic with a nil dereference (null / map-drop mutants of and^n(or^m(..)) and or^n(andc(..)) shapes are NOT executed: " +
-				"there the dereference happens in an errgroup goroutine and kills the process; they are counted under excluded_known)"
-		}
+		note := "make Verify panic with a nil dereference (null / map-drop mutants of and^n(or^m(..)) and or^n(andc(..)) shapes are NOT executed: " +
+			"there the dereference happens in an errgroup goroutine and kills the process; they are counted under excluded_known)"
 		vlib.Known(id, len(hits[id]) > 0, fmt.Sprintf("shard observation: %d of %d enumerated (site class, operator) placements %s: %s", len(hits[id]), sites, note, what))
 	}
 	vlib.Exhaustive("one proof per (15 protocol / composition kinds x 3 compilers) (every site class x 12 deterministic operator variants) and per (nthroot, prm, cggmp21 enc / fac / blummod x Fiat-Shamir: every site class x 6 structural variants)")
